@@ -335,7 +335,11 @@ def check_C11(tier, seed):
             raise ToolError("family ill produced a syntactically invalid grammar: %s\n%s" % (g["text"], r["errors"]))
         if r["valid"] and r["rules_src"] != g["rules"]:
             raise ToolError("AST rendering differs from pest_meta's for %s:\n%s\n%s\n%s" % (g["id"], g["text"], json.dumps(g["rules"]), json.dumps(r["rules_src"])))
-    more = families.fam_rand(tier, seed, 6 if tier == "quick" else 40, "plain") + families.fam_rand(tier, seed, 4 if tier == "quick" else 30, "stack")
+    sr = families.fam_skiprules(tier)
+    more = (families.fam_rand(tier, seed, 6 if tier == "quick" else 40, "plain") + families.fam_rand(tier, seed, 4 if tier == "quick" else 30, "stack")
+            + families.fam_rand(tier, seed, 4 if tier == "quick" else 30, "ws") + (sr[2::7] if tier == "quick" else sr))
+    # skip rules that start with a zero-width predicate: if their body ever ran with implicit skipping on, the skip would re-enter itself
+    more += [g for g in sr if g not in more and ('{ !"##"' in g["text"].splitlines()[0] or '{ &"#"' in g["text"].splitlines()[0])][: (6 if tier == "quick" else 40)]
     mread = peg.pest_read(more, "c11")
     for g, r in zip(more, mread):
         g["rules"] = r["rules_src"]
@@ -383,12 +387,14 @@ def check_C11(tier, seed):
     wf = [g for g in grams if verdict[g["id"]]["wellfounded"]]
     rnd = random.Random(seed)
     rnd.shuffle(wf)
-    wf = wf[: (40 if tier == "quick" else 300)]
+    wf = [g for g in wf if g["id"].startswith("sr")] + [g for g in wf if not g["id"].startswith("sr")][: (40 if tier == "quick" else 300)]
     for g in wf:
         g.setdefault("alphabet", cps("ab1 #"))
         g["maxlen"] = 3 if tier == "quick" else 4
     allg = wf
-    path, corpus = peg.make_corpus(allg, "c11")
+    liveg = allg[: (30 if tier == "quick" else 150)]
+    path, corpus = peg.make_corpus(liveg, "c11")
+    ctx.notes["liveness_grammars"] = len(liveg)
     _, st = peg.run_tlc(path, "c11", cfg="MC_Peg_live.cfg", emit="none", workers=8)
     if not st["ok"]:
         raise ToolError("TLC liveness run (M10: well-founded grammars terminate) failed:\n" + st.get("tail", "")[-3000:])
@@ -409,7 +415,7 @@ def check_C19(tier, seed):
     ctx = Ctx("C19", tier, seed)
     cs, gram, src = rawfam.build(tier)
     L = 5 if tier == "quick" else 7
-    plain = all_strings(cps("ab c"), 4 if tier == "quick" else 5) + [cps(x) for x in ["aaaaa", "a a a a", "a a a a a", "aaaaaa", "bcbcbc", "a bc a", "aaaa ", "a  a", "abcabc", "bc bc bc bc bc"]]
+    plain = all_strings(cps("ab c"), 4 if tier == "quick" else 5) + [cps(x) for x in ["aaaaa", "a a a a", "a a a a a", "aaaaaa", "bcbcbc", "a bc a", "aaaa ", "a  a", "abcabc", "bc bc bc bc bc", "é", "😀", "aé", "好", "é😀", "好好", "a好b", "ééé", "😀😀😀"]]
     stacky = []
     for npush in range(0, 4):
         for sep in ("", " "):
@@ -639,6 +645,10 @@ pub fn custom_%s(job: &hcommon::Job) -> serde_json::Value {
                               {"kind": "generator", "grammar": gtext, "opts": opts, "rule": sr["rule"], "getter": sr["x"], "expected": _norm_shape(exp), "observed": sig.get(sr["x"])})
         rows = props.run_generic(ctx, "c16" + vtag, grams, "sX", lambda rec, job, obs, gram: [], ast=ast, emit="dv", with_pest=False)
         for rec, job, obs, gram in rows:
+            if "panic" in obs and "t" not in obs:
+                ctx.violation("getter code panicked on %s rule %s input %r: %s" % (gram["id"], job["rule"], uncps(job["inp"]), obs["panic"][:120]),
+                              props.replay_of(rec, job, obs, gram, "panic", "no panic", obs["panic"]))
+                continue
             if not rec["ok"] or "x" not in obs:
                 continue
             x = obs["x"]
@@ -671,8 +681,12 @@ def check_C17(tier, seed):
     import props, arityfam
     ctx = Ctx("C17", tier, seed)
     grams = arityfam.fam_arity(tier)
-    rows = props.run_generic(ctx, "c17", grams, "sX", lambda rec, job, obs, gram: [], emit="dv", with_pest=False)
+    rows = props.run_generic(ctx, "c17", grams, "snX", lambda rec, job, obs, gram: [], emit="dv", with_pest=False)
     for rec, job, obs, gram in rows:
+        if "panic" in obs and "t" not in obs:
+            ctx.violation("accessor code panicked on %s rule %s input %r|%r|%r: %s" % (gram["id"], job["rule"], uncps(job["pre"]), uncps(job["inp"]), uncps(job["post"]), obs["panic"][:120]),
+                          props.replay_of(rec, job, obs, gram, "panic", "no panic", obs["panic"]))
+            continue
         if not rec["ok"] or "x" not in obs:
             continue
         x = obs["x"]
@@ -837,7 +851,7 @@ def check_C18(tier, seed):
         d = peg.tmpdir("c18")
         cp = os.path.join(d, "hist%d.json" % rd)
         json.dump(cj, open(cp, "w"))
-        recs, st = peg.run_tlc(cp, "c18", cfg="ApiHistory.cfg", module="ApiHistory.tla", extra_env={"VERIF_MAXH": str(H)})
+        recs, st = peg.run_tlc(cp, "c18", cfg="ApiHistory.cfg", module="ApiHistory.tla", emit="dv", extra_env={"VERIF_MAXH": str(H)})
         if not st["ok"]:
             raise ToolError("TLC failed on ApiHistory:\n" + st.get("tail", "")[-3000:])
         ctx.add_stats(st)
